@@ -137,6 +137,9 @@ def rGet (rs : RRegs) (i : Nat) : Rds × Bool := rs.getD i (rdsNew 1 1 0 0, fals
 def showRes (r : RdsR) (imm : Bool) : String :=
   (match r.2 with | none => "ok" | some e => "err " ++ e.toString) ++ ":" ++ showRds (r.1, imm)
 
+/-- one in-place operation on register `r` through `Model.regApply` -/
+def showReg (p : Reg × Option RdsErr) : String := showRes (p.1.s, p.2) p.1.imm
+
 partial def runRds (rs : RRegs) (out : List String) : List String → Option (List String)
   | [] => some out.reverse
   | "new" :: r :: c :: t :: cv :: ttl :: rest => do
@@ -145,70 +148,43 @@ partial def runRds (rs : RRegs) (out : List String) : List String → Option (Li
     runRds (rs.set r v) (("ok:" ++ showRds v) :: out) rest
   | "add" :: r :: rd :: ttl :: rest => do
     let r ← parseReg r; let rd ← parseRd rd; let ttl ← parseOptNat ttl
-    let (s, imm) := rGet rs r
-    if imm then runRds rs (showRes (s, some .immutable) imm :: out) rest
-    else
-      let res := rdsAdd Consts.singletons s rd ttl
-      runRds (rs.set r (res.1, false)) (showRes res false :: out) rest
+    unary rs out rest r (.add rd ttl)
   | "ttl" :: r :: t :: rest => do
     let r ← parseReg r; let t ← t.toNat?
-    let (s, imm) := rGet rs r
-    if imm then runRds rs (showRes (s, some .immutable) imm :: out) rest
-    else
-      let v := updateTtl s t
-      runRds (rs.set r (v, false)) (showRes (v, none) false :: out) rest
+    unary rs out rest r (.updateTtl t)
   | "rm" :: r :: rd :: rest => do
     let r ← parseReg r; let rd ← parseRd rd
-    let (s, imm) := rGet rs r
-    if imm then runRds rs (showRes (s, some .immutable) imm :: out) rest
-    else match SetAlg.remove s.items rd with
-      | some v => runRds (rs.set r ({ s with items := v }, false)) (showRes ({ s with items := v }, none) false :: out) rest
-      | none => runRds rs (showRes (s, some .valueError) false :: out) rest
+    unary rs out rest r (.remove rd)
   | "disc" :: r :: rd :: rest => do
     let r ← parseReg r; let rd ← parseRd rd
-    let (s, imm) := rGet rs r
-    if imm then runRds rs (showRes (s, some .immutable) imm :: out) rest
-    else
-      let v := { s with items := SetAlg.discard s.items rd }
-      runRds (rs.set r (v, false)) (showRes (v, none) false :: out) rest
+    unary rs out rest r (.discard rd)
   | "pop" :: r :: rest => do
     let r ← parseReg r
     let (s, imm) := rGet rs r
-    if imm then runRds rs (showRes (s, some .immutable) imm :: out) rest
-    else match SetAlg.pop s.items with
-      | some (x, v) =>
-        runRds (rs.set r ({ s with items := v }, false)) (("ok " ++ showRd x ++ ":" ++ showRds ({ s with items := v }, false)) :: out) rest
-      | none => runRds rs (showRes (s, some .keyError) false :: out) rest
+    -- `pop` also reports the popped record
+    match imm, SetAlg.pop s.items with
+    | false, some (x, _) =>
+      let res := regApply Consts.singletons ⟨s, imm⟩ .pop s false
+      runRds (rs.set r (res.1.s, res.1.imm)) (("ok " ++ showRd x ++ ":" ++ showRds (res.1.s, res.1.imm)) :: out) rest
+    | _, _ => unary rs out rest r .pop
   | "clear" :: r :: rest => do
     let r ← parseReg r
-    let (s, imm) := rGet rs r
-    if imm then runRds rs (showRes (s, some .immutable) imm :: out) rest
-    else
-      let v := { s with items := [] }
-      runRds (rs.set r (v, false)) (showRes (v, none) false :: out) rest
+    unary rs out rest r .clear
   | "del" :: r :: i :: rest => do
     let r ← parseReg r; let i ← i.toNat?
-    let (s, imm) := rGet rs r
-    if imm then runRds rs (showRes (s, some .immutable) imm :: out) rest
-    else match SetAlg.delItem s.items i with
-      | some v => runRds (rs.set r ({ s with items := v }, false)) (showRes ({ s with items := v }, none) false :: out) rest
-      | none => runRds rs (showRes (s, some .stopIteration) false :: out) rest
+    unary rs out rest r (.delItem i)
   | "dels" :: r :: a :: b :: st :: rest => do
     let r ← parseReg r; let a ← a.toNat?; let b ← parseOptNat b; let st ← st.toNat?
     if st = 0 then none
-    let (s, imm) := rGet rs r
-    if imm then runRds rs (showRes (s, some .immutable) imm :: out) rest
-    else
-      let v := { s with items := SetAlg.delSlice s.items a b st }
-      runRds (rs.set r (v, false)) (showRes (v, none) false :: out) rest
+    unary rs out rest r (.delSlice a b st)
   | "cp" :: c :: a :: rest => do
     let c ← parseReg c; let a ← parseReg a
     let v := rGet rs a
     runRds (rs.set c v) (("ok:" ++ showRds v) :: out) rest
   | "imm" :: c :: a :: rest => do
     let c ← parseReg c; let a ← parseReg a
-    let v := ((rGet rs a).1, true)
-    runRds (rs.set c v) (("ok:" ++ showRds v) :: out) rest
+    let f := regFreeze ⟨(rGet rs a).1, (rGet rs a).2⟩
+    runRds (rs.set c (f.s, f.imm)) (("ok:" ++ showRds (f.s, f.imm)) :: out) rest
   | "match" :: r :: c :: t :: cv :: rest => do
     let r ← parseReg r; let c ← c.toNat?; let t ← t.toNat?; let cv ← cv.toNat?
     runRds rs (showBool (rdsMatch (rGet rs r).1 c t cv) :: out) rest
@@ -216,18 +192,17 @@ partial def runRds (rs : RRegs) (out : List String) : List String → Option (Li
     let a ← parseReg a; let b ← parseReg b
     let (A, immA) := rGet rs a; let (B, _) := rGet rs b
     let alias := a == b
-    let inplace (res : RdsR) := runRds (rs.set a (res.1, immA)) (showRes res immA :: out) rest
-    let refuse (_ : Unit) := runRds rs (showRes (A, some .immutable) immA :: out) rest
+    let inplace (o : InPlace) :=
+      let res := regApply Consts.singletons ⟨A, immA⟩ o B alias
+      runRds (rs.set a (res.1.s, res.1.imm)) (showReg res :: out) rest
     let pred (v : Bool) := runRds rs (showBool v :: out) rest
     match op with
-    | "uu" => if immA then refuse () else inplace (rdsUnionUpdate Consts.singletons A B alias)
-    | "iu" => if immA then refuse () else inplace (rdsInterUpdate A B alias)
-    | "upd" => if immA then refuse () else inplace (rdsUpdate Consts.singletons A B)
-    | "du" =>
-      if immA then (if !alias && B.items.isEmpty then inplace (A, none) else refuse ())
-      else inplace (rdsDiffUpdate A B alias)
-    | "duo" => if immA then refuse () else inplace (rdsDiffUpdate A B alias)   -- `-=`: `__isub__` is overridden to raise
-    | "sdu" => if immA then refuse () else inplace (rdsSymDiffUpdate Consts.singletons A B alias)
+    | "uu" => inplace .unionUpdate
+    | "iu" => inplace .interUpdate
+    | "upd" => inplace .update
+    | "du" => inplace .diffUpdate
+    | "duo" => inplace .isub
+    | "sdu" => inplace .symDiffUpdate
     | "sub" => pred (SetAlg.isSubset A.items B.items)
     | "sup" => pred (SetAlg.isSuperset A.items B.items)
     | "dj" => pred (SetAlg.isDisjoint A.items B.items)
@@ -237,19 +212,19 @@ partial def runRds (rs : RRegs) (out : List String) : List String → Option (Li
       | c2 :: rest' => do
         let c2 ← parseReg c2
         let (X, immX) := rGet rs b; let (Y, _) := rGet rs c2
+        let kind ← (match op with | "un" => some 0 | "in" => some 1 | "df" => some 2 | "sd" => some 3 | _ => none)
+        let res := regFun Consts.singletons ⟨X, immX⟩ kind Y
         -- a raising copy leaves the destination register untouched
-        let fin (res : RdsR) :=
-          match res.2 with
-          | none => runRds (rs.set a (res.1, immX)) (showRes res immX :: out) rest'
-          | some e => runRds rs (("err " ++ e.toString) :: out) rest'
-        match op with
-        | "un" => fin (rdsUnion Consts.singletons X Y)
-        | "in" => fin (rdsInter X Y)
-        | "df" => fin (rdsDiff X Y)
-        | "sd" => fin (rdsSymDiff Consts.singletons X Y)
-        | _ => none
+        match res.2 with
+        | none => runRds (rs.set a (res.1.s, res.1.imm)) (showReg res :: out) rest'
+        | some e => runRds rs (("err " ++ e.toString) :: out) rest'
       | [] => none
   | _ => none
+where
+  unary (rs : RRegs) (out : List String) (rest : List String) (r : Nat) (o : InPlace) : Option (List String) :=
+    let (s, imm) := rGet rs r
+    let res := regApply Consts.singletons ⟨s, imm⟩ o s false
+    runRds (rs.set r (res.1.s, res.1.imm)) (showReg res :: out) rest
 
 def rdCmpLine (a b : Rd) : String :=
   -- the rich comparisons return NotImplemented (TypeError) across classes or types: `_cmp` is never reached
